@@ -28,8 +28,11 @@ ASSUMPTIONS = [
 
 STEMS = ["http://x", "http://x/a", "http://x/a_b", "http://y#b", "x", "", "https://w3.org/ns", "http://x/a/b",
          # neighbours of the known-finding region (NOT skipped by the hard-coded GitHub rule, so they must be learned)
-         "https://github.com/o/r/pull", "http://github.com/o/r/issues", "https://gitlab.com/o/r/issues", "https://github.com/o/r/issue"]
-DELIMS_ALL = ["#", "/", "_", "-", ":", "=", "::"]
+         "https://github.com/o/r/pull", "http://github.com/o/r/issues", "https://gitlab.com/o/r/issues", "https://github.com/o/r/issue",
+         # stems ending in a delimiter character: together with a multi-character delimiter this gives overlapping
+         # occurrences right before the identifier ("x_" + "__" + "1" = "x___1")
+         "http://x_", "http://x:", "http://x/", "urn:a/#"]
+DELIMS_ALL = ["#", "/", "_", "-", ":", "=", "::", "__", "//", "/#/"]
 TAILS = ["1", "2", "0001", "abc", "A1", "é", "é1", "٣", "²", "", "a-b", "a b", "a.b", "1/", "x y", "GO_1", "a#b", "p_q"]
 
 
